@@ -873,7 +873,7 @@ def pass_stage(ctx: vlib.Ctx, exe: str | None, tmp: str) -> None:
         opt = [i for i in items if os.path.basename(i["file"]).startswith("opt-")]
         rest = [i for i in items if not os.path.basename(i["file"]).startswith("opt-")]
         rng.shuffle(rest)
-        items = opt + rest[:90]
+        items = opt + rest[:70]
     items += gen_pass_programs(rng, ctx.n(4, 40))
     synth = synth_ir(rng, ctx.n(30, 300))
     ctx.cov["pass_synthetic_ir_functions"] = len(synth)
@@ -984,7 +984,7 @@ def pass_stage(ctx: vlib.Ctx, exe: str | None, tmp: str) -> None:
         ulines.append(ln)
         umeta.append((q, info))
     uout = run_driver(exe, ulines) if ulines else []
-    urej = uexcl = 0
+    urej = uexcl = uexcl_addr = uexcl_tmp = 0
     for (q, info), o, ln in zip(umeta, uout, ulines):
         if o != "1":
             urej += 1
@@ -994,16 +994,24 @@ def pass_stage(ctx: vlib.Ctx, exe: str | None, tmp: str) -> None:
                               "block overwrites it with the error value (bitmap-tracked types: its bit starts cleared), so every later read "
                               f"raises UnboundLocalError even when the argument was never deleted: {q['name']}",
                               {"kind": "pass", "pass": "uninit", "function": q["name"], "driver_line": ln[:20000]})
+            elif undominated_temp_read(q["after"]):
+                # generator helper before spill.py: an op value is live across a resume edge (not a register; uninit.py ignores it)
+                uexcl_tmp += 1
+            elif info.get("address_taken"):
+                # a register whose address is taken (LoadAddress) is initialised through the pointer; not modelled
+                uexcl_addr += 1
             elif info.get("unnamed_in_prelude"):
                 # uninit.py deliberately skips the check for possibly-undefined registers WITHOUT a name ("XXX ... it should be OK??"):
                 # the validator cannot justify that; counted as an exclusion, not loosened
                 uexcl += 1
-            elif urej - uexcl <= 3:
+            elif urej - uexcl - uexcl_addr - uexcl_tmp <= 3:
                 ctx.violation(f"pass:uninit:{q['name']}", f"verified validator rejects the output of insert_uninit_checks on {q['name']} ({o})",
                               {"kind": "pass", "pass": "uninit", "function": q["name"], "driver_line": ln[:20000]})
     ctx.cov["uninit_pairs_validated"] = len(ulines)
     ctx.cov["uninit_pairs_rejected"] = urej
     ctx.cov["uninit_pairs_excluded_unnamed_register_unchecked"] = uexcl
+    ctx.cov["uninit_pairs_excluded_address_taken_register"] = uexcl_addr
+    ctx.cov["uninit_pairs_excluded_value_live_across_resume_edge"] = uexcl_tmp
     ctx.cov["uninit_stats"] = ustats
     ctx.add("evaluations", len(lines) + len(ulines))
     ctx.add("traces_validated_against_impl", len(lines) + len(ulines))
@@ -1334,6 +1342,42 @@ def parse_rich_dump(path: str) -> list[dict]:
 BITMAP_MASK = (1 << 32) - 1
 
 
+def undominated_temp_read(fn: dict) -> bool:
+    """Does some op read an op VALUE (not a register) that is not defined on every path to it?  Happens in generator helpers
+    before spill.py runs (values live across a resume edge); uninit.py only looks at registers, the validator wants every read defined."""
+    regs = fn["regs"]
+    labels = [b[0] for b in fn["blocks"]]
+    blocks = {b[0]: b for b in fn["blocks"]}
+    uni = set(regs) | {o[1] for b in fn["blocks"] for o in b[2]}
+    ain = {l: set(uni) for l in labels}
+    ain[labels[0]] = set(fn["args"])
+    preds: dict[int, list[int]] = {l: [] for l in labels}
+    for b in fn["blocks"]:
+        for t in term_succs(b[3] or ("u",)):
+            if t in preds:
+                preds[t].append(b[0])
+    changed = True
+    while changed:
+        changed = False
+        out = {l: ain[l] | {o[1] for o in blocks[l][2]} for l in labels}
+        for l in labels[1:]:
+            n = set(ain[l])
+            for q in preds[l]:
+                n &= out[q]
+            if n != ain[l]:
+                ain[l] = n
+                changed = True
+    for b in fn["blocks"]:
+        D = set(ain[b[0]])
+        for o in b[2]:
+            srcs = [o[2]] if o[0] == "a" else (o[4] if o[0] == "O" else o[3])
+            for x in srcs:
+                if x[0] == "v" and int(x[1:]) not in D and int(x[1:]) not in regs:
+                    return True
+            D.add(o[1])
+    return False
+
+
 def uninit_case(p: dict) -> tuple[str | None, dict]:
     """Normalise the AFTER function of an insert_uninit_checks pair into guarded blocks (TRUSTED step, see notes), compute the
     untrusted hints, and encode the request line for the extracted validator.  Returns (line or None, info)."""
@@ -1500,6 +1544,7 @@ def uninit_case(p: dict) -> tuple[str | None, dict]:
             + f" {len(labels)} " + " ".join(f"{l} {plist(sorted(ain[l]))}" for l in labels)
             + " " + enc(gbefore) + " " + enc(gafter))
     info["bitmap_registers"] = len(bmt)
+    info["address_taken"] = any(o[0] == "O" and o[3] == "loadaddr" for b in after["blocks"] for o in b[2])
     info["unnamed_in_prelude"] = any(a.startswith("U ") and b.startswith("p a ") and b.split()[3] == "v" + a.split()[1]
                                      and not regs.get(int(b.split()[2]), ("", True, False))[1] for a, b in zip(blocks[labels[0]][0], blocks[labels[0]][0][1:]))
     eg = blocks[labels[0]][0]
